@@ -495,6 +495,21 @@ func GenModel(t *rapid.T) *Model {
 		renderFields(&mb, s.Fields)
 		mb.WriteString("}\n\n")
 	}
+	// NReq / NResp / NErr each occur in one role only (argument, result, thrown exception) and declare a field annotated api.none:
+	// such a field is left out of a response descriptor and nowhere else, so the model of NResp does not list it
+	for _, x := range []string{"NReq", "NResp", "NErr"} {
+		kind := "struct"
+		if x == "NErr" {
+			kind = "exception"
+		}
+		all := []Fld{{ID: 1, Name: "keep_a", T: &Ty{K: tm.STRING}, Text: "string"}, {ID: 2, Name: "gone", T: &Ty{K: tm.I32}, Text: "i32"}, {ID: 3, Name: "keep_c", Req: tm.ReqRequired, T: &Ty{K: tm.I64}, Text: "i64"}}
+		s := &Str{Full: "main." + x, Kind: kind, Fields: all}
+		if x == "NResp" {
+			s.Fields = []Fld{all[0], all[2]}
+		}
+		m.Structs[s.Full] = s
+		fmt.Fprintf(&mb, "%s %s {\n  1: string keep_a,\n  2: i32 gone (api.none = \"true\"),\n  3: required i64 keep_c,\n}\n\n", kind, x)
+	}
 	// BReq / BResp only ever are the root of a request / response and carry the framework's base structs
 	for _, x := range []struct{ name, ty, fld string }{{"BReq", "base.Base", "Base"}, {"BResp", "base.BaseResp", "BaseResp"}} {
 		s := &Str{Full: "main." + x.name, Kind: "struct", Fields: []Fld{
@@ -524,6 +539,8 @@ func GenModel(t *rapid.T) *Model {
 		if i == 0 {
 			le := &Ty{K: tm.LIST, Elem: st("main.Elem")}
 			s.Fns = append(s.Fns, Fn{Name: "elems", ArgID: 1, ArgName: "req", Arg: le, ArgText: "list<Elem>", Ret: le, RetText: "list<Elem>"})
+			s.Fns = append(s.Fns, Fn{Name: "none", ArgID: 1, ArgName: "req", Arg: st("main.NReq"), ArgText: "NReq", Ret: st("main.NResp"), RetText: "NResp",
+				Throw: &Throw{ID: 1, Name: "err", T: st("main.NErr"), Text: "NErr"}})
 			s.Fns = append(s.Fns, Fn{Name: "withbase", ArgID: 1, ArgName: "req", Arg: st("main.BReq"), ArgText: "BReq", Ret: st("main.BResp"), RetText: "BResp"})
 		}
 		renderSvc(&mb, s)
